@@ -161,6 +161,39 @@ func sweeps(c *corr.Ctx) {
 	}
 }
 
+// oversizeFieldCases: AUs whose size does NOT fit the AU-size field (outside the valid frames; the
+// Go writer does not mask the value).  Encoder output only: ties the byte-wise WriteBitsUnsafe
+// mirror of the model to the real function also where it spills over field boundaries.
+func oversizeFieldCases(c *corr.Ctx) {
+	for _, ssrc := range []uint32{3, 0} { // 6/2/2 and 13/3/3
+		sl, _, _ := m4Params(ssrc)
+		if sl > 8 && c.Quick() {
+			continue
+		}
+		for _, max := range []int{40, 200, 9000} {
+			p := cu.EncParams{PT: 96, SSRC: ssrc, Seq0: 7, Max: max}
+			a, err := m4New(p)
+			if err != nil {
+				continue
+			}
+			b := newCase(Mpeg4Audio, fmt.Sprintf("mpeg4audio-oversize-field-%d-%d", ssrc, max))
+			b.einit(a.Instance, p)
+			for k := 0; k < 6; k++ {
+				n := 1<<uint(sl) - 2 + c.Rng.IntN(12)
+				f := cu.Frame{m4ValidAU(c.Rng, 1+c.Rng.IntN(5)), m4ValidAU(c.Rng, n), m4ValidAU(c.Rng, 1+c.Rng.IntN(5))}
+				if k%2 == 1 {
+					f = cu.Frame{m4ValidAU(c.Rng, n)}
+				}
+				if _, _, pan := b.enc(a.Instance, f); pan != nil {
+					break
+				}
+			}
+			b.cs.Nontrivial = true
+			c.Add(b.cs)
+		}
+	}
+}
+
 // adtsCases: the decoder's ADTS sniffing (sticky adtsMode) on hand-built histories.
 func adtsCases(c *corr.Ctx, n int) {
 	rg := c.Rng
